@@ -52,16 +52,16 @@ CHECKS = {
                 note="conditional / Min / Max / ** columns may be floating (as C03 and C13 word it); rows with zero divisors, complex or huge results are UNSPEC", ref="4/C13"),
     "C12": dict(cat="exploration", technique="documented function table executed as columns of sanitized generated jobs and compared with the C library symbol of the same name (ctypes)",
                 text="The README's math-function list is parsed and cross-checked with the translator's table; every function is evaluated by a compiled job standalone, inside arithmetic "
-                     "(f+1, 2*f, f/2, g(f), f*member), and with literal arguments, at argument values from event data inside its domain; values must agree with libm to 1e-9.",
+                     "(f+1, 2*f, f/2, g(f), f*member), and with literal arguments, at argument values from event data inside its domain; values must agree with libm to 1e-9; integer-typed and float-typed arguments, calls on literals, and IEEE-exact cells compiled with the compiler options the package's own build description requests.",
                 note="exhaustive over the documented list, sampled over argument values; 'namesake' = libm symbol (ln = log)", ref="4/C12"),
     "C04": dict(cat="exploration", technique="per-event outcome equivalence (rows | loud fault) between sanitized generated jobs and the Python evaluation; poisoned-null monitor and ASan/UBSan as spurious-fault detectors",
                 text="Enumerated guard templates (guarded and unguarded First/index/nullable links at event, element and chain level) plus random queries biased to partial operations run on events "
                      "with empty / singleton / many collections and null / non-null links; a reference fault must end the event loudly, a defined event must end OK with the right rows and "
                      "without NULL_DEREF records or sanitizer reports.",
                 note="events where lazy/eager/skip-unused orders disagree are UNSPEC; any loud ending matches a reference fault", ref="4/C04"),
-    "C05": dict(cat="exploration", technique="reference-free metamorphic test: rows per event from one compiled job run over the full list, permutations, singletons and a split into two jobs",
+    "C05": dict(cat="exploration", technique="reference-free metamorphic test: rows per event from one compiled job run over the full list, permutations, singletons and a split into two jobs; trace specification over the rendered ATLAS job options executed against a recording EventLoop stand-in",
                 text="For queries rich in per-event state (accumulators, first flags, vector columns, event-level Where, Range, opaque user C++), the rows attributed to each event must be identical "
-                     "whether the event is processed alone, in any order, or in a different job.",
+                     "whether the event is processed alone, in any order, or in a different job (events lacking a product included). The job options must schedule the generated algorithm alone and ask nothing else of the job.",
                 note="post-fault state excluded (driver starts a fresh job object after an exception, as the real job would be dead)", ref="4/C05"),
     "C03": dict(cat="exploration", technique="booking log of the stand-in TTree (branch name, exact C++ type, address) + rows read through the bound addresses at Fill(), compared with the query's final shape and Python's value kinds; container-model run for the delivered file name",
                 text="Terminal forms (bare, tuple, list, dict, nested sequences, explicit ResultTTree with arbitrary names) x generated and bare-declared-member columns x 3 backends: branch names/order/count, "
@@ -88,7 +88,7 @@ CHECKS = {
                      "reference / pointer of scalars, objects and object pointers, deref_count 1 and 2 through operator->/operator* layers, tree_type, nested-scope enums, undeclared); each is driven "
                      "through chain templates of length 1-4 and the job's values and booked types are compared with Python and the declarations.",
                 note="signature forms are an enumerated catalogue, values are random; elements by pointer (ATLAS) and by value (CMS)", ref="4/C10"),
-    "C02": dict(cat="exploration", technique="compiler-as-oracle on emitted packages (clang, ASan+UBSan build, uninitialized/shadow diagnostics), runtime identifier monitor on unique_name in the translating process, completeness audit of the output directory; valgrind sample in the thorough tier",
+    "C02": dict(cat="exploration", technique="compiler-as-oracle on emitted packages (clang, ASan+UBSan build, shadow diagnostics; static 'uninitialized' suspicions decided by valgrind memcheck on the real events), include monitor (<cmath>), runtime identifier monitor on unique_name in the translating process (declared once, scoped, basic character set), completeness audit of the output directory; valgrind sample in the thorough tier",
                 text="Every accepted translation of generated and metadata-heavy queries (equal volume on the three backends) is checked for a complete file set, executable entry script and no "
                      "surviving template directive; the unmodified C++ is compiled, linked and run against the model EDM; every identifier minted during the translation is audited in the rendered "
                      "text: declared exactly once, before its first use, in a block enclosing all uses.",
